@@ -103,8 +103,8 @@ func Run(r *ev.Run, replay string) {
 	r.MirrorCounters("executions", "traces_validated_against_impl")
 	// supplementary, over real loopback sockets; reported separately, never counted as exploration: the DialFunc that NewDialer
 	// installs (replaced by a scripted fake in every scenario above) closes the connection of an attempt that fails by itself,
-	// and the per-attempt deadline does not outlive the attempt on the connection it returns
-	racepass.Run(r, "./checks/c18/realsock/", "the DialFunc that NewDialer installs", "3 failing attempts against a peer that is no TLS server, 1 successful attempt used 900 ms after its 300 ms deadline")
+	// is bounded by its context when the peer never answers, and leaves no deadline behind on the connection it returns
+	racepass.Run(r, "./checks/c18/realsock/", "the DialFunc that NewDialer installs", "3 failing attempts against a peer that is no TLS server, 1 attempt against a peer that never answers (bounded by its context), 1 successful attempt used 900 ms after its 300 ms deadline")
 }
 
 func runTraced(sc scenario, vec []int) (*trace, *vs.Sched) {
